@@ -330,7 +330,9 @@ def r6(ctx):
         mine = [lf for lf in rets + loops if lf.known.get(fld(board, "turn")) == turn]
         # final checkers contribution on the return paths
         ok_final, shown = False, None
+        finals = []
         for lf in [l for l in mine if l.ret[0] != "loopback"]:
+            finals.append(False)
             final = eng.freeze(lf.state, lf.ext.get(slf, board))
             ch = T.get_path(final, (("f", 7, "checkers", None),))
             names = [f["name"] for f in P.adt(MG + "Board")["variants"][0]["fields"]]
@@ -351,8 +353,10 @@ def r6(ctx):
                 if extra_arg is not None and apps[0][2][1] not in extra_arg:
                     return False
                 return p == acnorm(C.AND(word(apps[0]), C.pieces(piece), opp))
-            ok_final = (len(kn) == 1 and len(pw) == 1 and ok_part(kn[0], "knight_moves", "Knight", None)
-                        and ok_part(pw[0], "pawn_attacks_moves", "Pawn", (fld(board, "turn"), ("adt", COLOR, turn, ()))) and len(rest) == 1 and rest[0][0] in ("loopvar", "field", "int"))
+            finals[-1] = (len(kn) == 1 and len(pw) == 1 and ok_part(kn[0], "knight_moves", "Knight", None)
+                          and ok_part(pw[0], "pawn_attacks_moves", "Pawn", (fld(board, "turn"), ("adt", COLOR, turn, ()))) and len(rest) == 1 and rest[0][0] in ("loopvar", "field", "int"))
+        # EVERY way out of the function must have added the knight and pawn checkers (an early return in front of them loses them)
+        ok_final = bool(finals) and all(finals)
         ctx.ob(f"direct checkers[{turn}]", ok_final, f"update_pin_info ({turn} to move) ends with checkers = {T.show(shown)[:260] if shown else None}; expected (slider checkers) | "
                "knight_moves(own king) & enemy knights | pawn_attacks_moves(own king, OWN colour) & enemy pawns", site=site, sample="checkers |= knights | pawns attacking the king")
         # slider loop domain and classification
